@@ -788,6 +788,10 @@ XProg(v) ==
     [] v = "structlit-dup-fields" ->            \* the deprecated struct-literal provider over a struct with two fields of one type
          [mk(<<StructLitL("SL", "S5"), XF("P2", <<>>, "T2"), XF("Q", <<"S5">>, "T1")>>, <<>>,
              <<XInj("Inject", <<>>, "T1", <<ItL(1), ItL(2), ItL(3)>>, 1)>>) EXCEPT !.atoms = XAtoms \o <<StructT("S5", "a", <<Fld("A", "T2"), Fld("B", "T2")>>)>>]
+    [] v = "foreign-struct-sole-reference" ->   \* a struct literal is the only reference to package b, and an earlier local is named like that package
+         [mk(<<StructL("St", "SB", <<>>, TRUE), XF("PV1", <<>>, "V1"), XF("P2", <<>>, "T2"), XF("Q", <<"T2", "SB">>, "T1")>>, <<>>,
+             <<XInj("Inject", <<>>, "T1", <<ItL(1), ItL(2), ItL(3), ItL(4)>>, 1)>>) EXCEPT !.atoms = XAtoms \o <<StructT("SB", "b", <<Fld("A", "V1")>>)>>]
+         @@ [naming |-> [x \in {"T2"} |-> "B"]]
     [] v = "same-set-twice-direct" ->          \* one set listed twice in the same call
          mk(<<XF("P2", <<>>, "T2"), XF("P1", <<"T2">>, "T1")>>, <<SetD("SetA", "a", <<ItL(1)>>)>>,
             <<XInj("Inject", <<>>, "T1", <<ItS(1), ItL(2), ItS(1)>>, 1)>>)
@@ -809,7 +813,7 @@ XVariants == {"star-foreign-tag-missing", "star-foreign-tag-ok", "two-files-firs
               "sets-in-injector-file", "same-provider-twice-direct", "same-provider-twice-in-set",
               "cycle-through-pointer-types", "cycle-behind-bound-interface", "bind-to-field-type", "variadic-dup-param", "arg-returned-directly-full-sig",
               "struct-both-forms-plus-superfluous", "same-name-packages-one-unused", "blank-param-conflicts-with-set", "embed-in-injector-file", "same-name-packages-poorer-set", "multi-name-var-sets-bind", "multi-name-var-sets-badsig",
-              "value-in-shared-set", "two-files-first-unused", "structlit-dup-fields"}
+              "value-in-shared-set", "two-files-first-unused", "structlit-dup-fields", "foreign-struct-sole-reference"}
 FamilyX(p, vs) == \E v \in vs : p = XProg(v)
 
 (* ======================================================================== *)
